@@ -104,10 +104,10 @@ func (r *runner) racePass(results []*targetResult) {
 				break
 			}
 		}
-		c.Fail(fuzzkey.Key("corpus-replay", "race", "", site), "data race while replaying the fuzz corpus under -race: "+tail(firstLines(blk, 14), 900), map[string]any{"output": tail(blk, 4000)})
+		r.fail(fuzzkey.Key("corpus-replay", "race", "", site), "data race while replaying the fuzz corpus under -race: "+tail(firstLines(blk, 14), 900), map[string]any{"output": tail(blk, 4000)})
 	}
 	if key, msg, stack := classifyCrash("corpus-replay", out.out); key != "" {
-		c.Fail(key, fmt.Sprintf("race/checkptr replay died: %s | %s", msg, firstLines(stackAfterPanic(stack), 8)), map[string]any{"output": tail(out.out, 4000)})
+		r.fail(key, fmt.Sprintf("race/checkptr replay died: %s | %s", msg, firstLines(stackAfterPanic(stack), 8)), map[string]any{"output": tail(out.out, 4000)})
 	} else if out.code != 0 && races == 0 && !strings.Contains(out.out, "VERIF-") {
 		c.Broken("race replay failed: %s", tail(out.out, 1200))
 	}
@@ -237,7 +237,7 @@ func (r *runner) repoTargets() {
 						crash = string(b)
 					}
 				}
-				c.Fail(key, fmt.Sprintf("the repository's own fuzz target %s (%s): %s | %s", name, x.what, msg, firstLines(stackAfterPanic(stack), 8)),
+				r.fail(key, fmt.Sprintf("the repository's own fuzz target %s (%s): %s | %s", name, x.what, msg, firstLines(stackAfterPanic(stack), 8)),
 					map[string]any{"target": name, "corpus_file": crash, "output": tail(x.res.out, 3000)})
 			} else {
 				// a t.Fatal of the target's own assertions (round-trip properties etc.) is outside C53's statement
